@@ -112,6 +112,106 @@ def holoRowSpec (e1 e2 : List Rat) (energy : Bool) (r : HoloRow) (a c : Nat) : R
 def holoSpec (e1 e2 : List Rat) (energy : Bool) (rows : List HoloRow) : List (List (List Rat)) :=
   rows.map fun r => tab (e2.length - 1) (e1.length - 1) (holoRowSpec e1 e2 energy r)
 
+/-! ### `np.digitize` on edges of either orientation -/
+
+theorem sortedLe_of_pairwise (e : List Rat) (h : e.Pairwise (· ≤ ·)) : sortedLe e = true := by
+  induction e with
+  | nil => rfl
+  | cons a t ih =>
+    cases t with
+    | nil => rfl
+    | cons b t =>
+      have h1 := List.pairwise_cons.mp h
+      simp only [sortedLe, Bool.and_eq_true, decide_eq_true_eq]
+      exact ⟨h1.1 b (by simp), ih h1.2⟩
+
+theorem digitizeM_of_pairwise (e : List Rat) (h : e.Pairwise (· ≤ ·)) (f : Freq) : digitizeM e f = digitizeF e f := by
+  simp [digitizeM, sortedLe_of_pairwise e h]
+
+theorem digitizeDecF_le_length (e : List Rat) (f : Freq) : digitizeDecF e f ≤ e.length := by
+  cases f with
+  | none => simp [digitizeDecF]
+  | some v => exact List.countP_le_length
+
+theorem digitizeM_le_length (e : List Rat) (f : Freq) : digitizeM e f ≤ e.length := by
+  unfold digitizeM
+  split
+  · exact digitizeF_le_length e f
+  · exact digitizeDecF_le_length e f
+
+theorem pairwise_ge_of_sortedGe (e : List Rat) (h : sortedGe e = true) : e.Pairwise (· ≥ ·) := by
+  induction e with
+  | nil => simp
+  | cons a t ih =>
+    cases t with
+    | nil => simp
+    | cons b t =>
+      simp only [sortedGe, Bool.and_eq_true, decide_eq_true_eq] at h
+      have ht := ih h.2
+      refine List.pairwise_cons.mpr ⟨?_, ht⟩
+      intro x hx
+      rcases List.mem_cons.mp hx with rfl | hx
+      · exact h.1
+      · have := (List.pairwise_cons.mp ht).1 x hx
+        grind
+
+/-- on decreasing edges the digitised index is `b + 1` exactly for `e[b+1] ≤ v < e[b]` -/
+theorem digitizeDec_spec (e : List Rat) (he : e.Pairwise (· ≥ ·)) (v : Rat) (b : Nat) (hb : b + 1 < e.length) :
+    digitizeDec e v = b + 1 ↔ e[b + 1] ≤ v ∧ v < e[b] := by
+  induction e generalizing b with
+  | nil => simp at hb
+  | cons a t ih =>
+    have h1 := List.pairwise_cons.mp he
+    simp only [digitizeDec, List.countP_cons]
+    by_cases hva : v < a
+    · simp only [hva, decide_true, ite_true]
+      cases b with
+      | zero =>
+        simp only [Nat.zero_add, List.getElem_cons_zero, List.getElem_cons_succ, hva, and_true]
+        constructor
+        · intro h
+          have h0 : t.countP (v < ·) = 0 := by omega
+          have hlt : 0 < t.length := by simpa using hb
+          have := (List.countP_eq_zero.mp h0) t[0] (List.getElem_mem hlt)
+          simp at this
+          grind
+        · intro h
+          have : t.countP (v < ·) = 0 := by
+            apply List.countP_eq_zero.mpr
+            intro x hx
+            obtain ⟨i, hi, rfl⟩ := List.mem_iff_getElem.mp hx
+            have hle : t[i] ≤ t[0]'(by omega) := by
+              cases i with
+              | zero => grind
+              | succ i' =>
+                have := List.pairwise_iff_getElem.mp h1.2 0 (i' + 1) (by omega) hi (by omega)
+                exact this
+            simp; grind
+          omega
+      | succ b' =>
+        have := ih h1.2 b' (by simpa using hb)
+        simp only [digitizeDec] at this
+        simp only [List.getElem_cons_succ]
+        rw [← this]
+        omega
+    · simp only [hva, decide_false, Bool.false_eq_true, ite_false, Nat.add_zero]
+      have hz : t.countP (v < ·) = 0 := by
+        apply List.countP_eq_zero.mpr
+        intro x hx
+        have := h1.1 x hx
+        simp; grind
+      constructor
+      · intro h; omega
+      · rintro ⟨_, h2⟩
+        exfalso
+        cases b with
+        | zero => exact hva (by simpa using h2)
+        | succ b' =>
+          have hlt : b' < t.length := by simp at hb; omega
+          have := h1.1 t[b'] (List.getElem_mem hlt)
+          simp only [List.getElem_cons_succ] at h2
+          grind
+
 theorem holoRowTrips_row {e1 e2 : List Rat} {energy : Bool} {t : Nat} {r : HoloRow} {x : Trip}
     (h : x ∈ holoRowTrips e1 e2 energy t r) : x.row = t := by
   unfold holoRowTrips at h
@@ -125,7 +225,7 @@ theorem holoRowTrips_col {e1 e2 : List Rat} {energy : Bool} {t : Nat} {r : HoloR
   obtain ⟨y, _, h2⟩ := List.mem_flatMap.mp h
   obtain ⟨fa, _, h3⟩ := List.mem_map.mp h2
   rw [← h3]
-  exact foldIdx_lt _ _ _ _ (digitizeF_le_length e1 y.1) (digitizeF_le_length e2 fa.1)
+  exact foldIdx_lt _ _ _ _ (digitizeM_le_length e1 y.1) (digitizeM_le_length e2 fa.1)
 
 /-- the weight one time row sends to the folded column of (AM bin `a`, carrier bin `c`) -/
 theorem sumIf_holoRowTrips (e1 e2 : List Rat) (he1 : e1.Pairwise (· ≤ ·)) (he2 : e2.Pairwise (· ≤ ·))
@@ -133,6 +233,7 @@ theorem sumIf_holoRowTrips (e1 e2 : List Rat) (he1 : e1.Pairwise (· ≤ ·)) (h
     sumIf (holoRowTrips e1 e2 energy t r) t (foldIdx e1.length (c + 1) (a + 1)) =
       holoRowSpec e1 e2 energy r a c := by
   unfold holoRowTrips holoRowSpec sumIf
+  simp only [digitizeM_of_pairwise e1 he1, digitizeM_of_pairwise e2 he2]
   induction List.zip r.f1 (List.zip r.f2 r.a2) with
   | nil => rfl
   | cons x rest ih =>
@@ -254,5 +355,75 @@ theorem holoCoo_sq (e1 e2 : List Rat) (rows : List HoloRow) :
   apply cooFrom_congr
   intro t r
   exact holoRowTrips_sq e1 e2 t r
+
+/-! ### one sparse entry per sample -/
+
+theorem countP_cooFrom {ρ : Type} (mk : Nat → ρ → List Trip) (p : Trip → Bool) (n : ρ → Nat)
+    (h : ∀ t r, (mk t r).countP p = n r) :
+    ∀ (t0 : Nat) (rows : List ρ), (cooFrom mk t0 rows).countP p = (rows.map n).sum := by
+  intro t0 rows
+  induction rows generalizing t0 with
+  | nil => rfl
+  | cons r rs ih => simp [cooFrom, List.countP_append, ih, h]
+
+/-- number of second-level samples of one time row (ragged rows: what `zip` pairs up) -/
+def rowSamples (r : HoloRow) : Nat :=
+  ((List.zip r.f1 (List.zip r.f2 r.a2)).map fun x => (List.zip x.2.1 x.2.2).length).sum
+
+theorem length_holoRowTrips (e1 e2 : List Rat) (energy : Bool) (t : Nat) (r : HoloRow) :
+    (holoRowTrips e1 e2 energy t r).length = rowSamples r := by
+  unfold holoRowTrips rowSamples
+  induction List.zip r.f1 (List.zip r.f2 r.a2) with
+  | nil => rfl
+  | cons x rest ih => simp [List.flatMap_cons, ih]
+
+/-- the sparse entry lies in a cell that survives the trim `[1:-1, 1:-1]` of the unfolded matrix -/
+def interior (e1 e2 : List Rat) (x : Trip) : Bool :=
+  decide (1 ≤ x.col % (e1.length + 1) ∧ x.col % (e1.length + 1) ≤ e1.length - 1 ∧
+          1 ≤ x.col / (e1.length + 1) ∧ x.col / (e1.length + 1) ≤ e2.length - 1)
+
+theorem countP_interior_holoRowTrips (e1 e2 : List Rat) (he1 : e1.Pairwise (· ≤ ·)) (he2 : e2.Pairwise (· ≤ ·))
+    (energy : Bool) (t : Nat) (r : HoloRow) :
+    (holoRowTrips e1 e2 energy t r).countP (interior e1 e2) =
+      ((List.zip r.f1 (List.zip r.f2 r.a2)).map fun x =>
+        (List.zip x.2.1 x.2.2).countP fun fa => inRange e2 fa.1 && inRange e1 x.1).sum := by
+  unfold holoRowTrips
+  simp only [digitizeM_of_pairwise e1 he1, digitizeM_of_pairwise e2 he2]
+  induction List.zip r.f1 (List.zip r.f2 r.a2) with
+  | nil => rfl
+  | cons x rest ih =>
+    rw [List.flatMap_cons, List.countP_append, ih, List.map_cons, List.sum_cons]
+    congr 1
+    rw [List.countP_map]
+    apply List.countP_congr
+    intro fa _
+    have hu := unfold_fold e1.length (digitizeF e1 x.1) (digitizeF e2 fa.1) (digitizeF_le_length e1 x.1)
+    have h1 := inRange_iff e1 he1 x.1
+    have h2 := inRange_iff e2 he2 fa.1
+    simp only [Function.comp, interior, hu.1, hu.2, decide_eq_true_eq, Bool.and_eq_true, h1, h2]
+    omega
+
+/-- rectangular input `[T × M]`, `[T × M × K]`, `[T × M × K]` -/
+def Rect (M K : Nat) (rows : List HoloRow) : Prop :=
+  ∀ r ∈ rows, r.f1.length = M ∧ r.f2.length = M ∧ r.a2.length = M ∧
+    (∀ l ∈ r.f2, l.length = K) ∧ (∀ l ∈ r.a2, l.length = K)
+
+theorem sum_map_const {α : Type} (l : List α) (g : α → Nat) (c : Nat) (h : ∀ x ∈ l, g x = c) :
+    (l.map g).sum = l.length * c := by
+  induction l with
+  | nil => simp
+  | cons a t ih =>
+    rw [List.map_cons, List.sum_cons, h a (by simp), ih (fun x hx => h x (by simp [hx])), List.length_cons]
+    rw [Nat.add_mul]; omega
+
+theorem rowSamples_rect (M K : Nat) (r : HoloRow) (h1 : r.f1.length = M) (h2 : r.f2.length = M) (h3 : r.a2.length = M)
+    (h4 : ∀ l ∈ r.f2, l.length = K) (h5 : ∀ l ∈ r.a2, l.length = K) : rowSamples r = M * K := by
+  unfold rowSamples
+  rw [sum_map_const _ _ K]
+  · simp [h1, h2, h3]
+  · intro x hx
+    have hz := (List.of_mem_zip hx).2
+    have := List.of_mem_zip hz
+    simp [h4 _ this.1, h5 _ this.2]
 
 end Spectra
